@@ -178,7 +178,7 @@ theorem inv_step (n n' : Net) (h : Inv n) (hstep : Step n n') : Inv n' := by
       · intro hp; subst hp
         simpa using last_send n h pre a hst
     | recvErr pre a post hst hb hw =>
-      refine inv_ecancel n { n with stages := pre ++ { a with errbuf := false, waiter := false } :: post, ecancel := true } h rfl h.ret ?_ ?_
+      refine inv_ecancel n { n with stages := pre ++ { a with errbuf := false, waiter := false } :: post, ecancel := true, sawErr := true } h rfl h.ret ?_ ?_
       · intro x hx
         simp only at hx
         rcases mem_replace.mp hx with hx | rfl | hx
@@ -210,7 +210,7 @@ theorem inv_step (n n' : Net) (h : Inv n) (hstep : Step n n') : Inv n' := by
       · exact h.last
   · cases hs with
     | cancel hc =>
-      refine inv_ecancel n { n with cancelled := true, ecancel := true } h rfl (fun _ => rfl) ?_ ?_
+      refine inv_ecancel n { n with cancelled := true, ecancel := true, callerCancelled := true } h rfl (fun _ => rfl) ?_ ?_
       · intro x hx
         have := h.stg x hx; exact ⟨this.workers, this.closedQuiet⟩
       · exact h.last
